@@ -135,7 +135,8 @@ def periods_spanned(sample, data):
     sample : `~thejoker.JokerSamples`
     data : `~thejoker.RVData`
     """
-    P = sample['P']
+    # (converted in double precision also for a single-precision period column)
+    P = u.Quantity(sample['P'], dtype=np.float64)
     T = data.t.jd.max() - data.t.jd.min()
     return T / P.to_value(u.day)
 
